@@ -447,7 +447,6 @@ def interpret(sc):
         elif s.op == 'make_local':
             a = info[s.regs[1]]
             I.knots, I.rate, I.joints = list(a.knots), a.rate, set(a.joints)
-            I.taint, I.why = True, 'make_local (no law stated by the property)'
         elif s.op == 'copy':
             a = info[s.regs[1]]
             I.knots, I.rate, I.joints, I.taint, I.why = list(a.knots), a.rate, set(a.joints), a.taint, a.why
@@ -671,6 +670,7 @@ class Audit:
             d = s.regs[0]
             srcs = s.regs[1:]
             self.cnt('op_' + s.op)
+            self.track_history(s, d, srcs)
             self.taint[d] = any(self.taint.get(r, False) for r in srcs)
             self.joints[d] = set()
             self.absok[d] = self.vec and self.info[d].absok and all(self.absok.get(r, False) for r in srcs)
@@ -691,6 +691,50 @@ class Audit:
                 self.taint[d] = True
             self.cnt('law_checks', W.n)
         return self.findings
+
+    SHAPE = {'concat_local': 'L', 'concat_global': 'G', 'crop': 'X', 'make_local': 'M', 'copy': ''}
+
+    def track_history(self, s, d, srcs):
+        """history shape of every register: the operation kinds along its longest operand chain
+        (C constructor, L concat_local/+=, G concat_global, X crop, M make_local), and whether its first /
+        last segment was cut by an earlier crop"""
+        if not hasattr(self, 'hist'):
+            self.hist, self.cut, self.shapes = {}, {}, {}
+        if not srcs:
+            self.hist[d], self.cut[d] = 'C', (False, False)
+            return
+        h = max((self.hist.get(r, 'C') for r in srcs), key=len) + self.SHAPE.get(s.op, '?')
+        self.hist[d] = h
+        I = self.info[d]
+        if s.op == 'crop':
+            Ia = self.info[srcs[0]]
+            ca = self.cut.get(srcs[0], (False, False))
+            ta, tb = w2f(s.x[0]), w2f(s.x[1])
+            tm = Ia.tmax()
+            tac = ta if not (ta < 0) else 0.0
+            tbc = tm if tm < tb else tb
+            if tbc > tac and Ia.knots:
+                i0 = sum(1 for k in Ia.knots if k <= tac)
+                il = sum(1 for k in Ia.knots if k < tbc)
+                if i0 == 0 and ca[0]:
+                    self.cnt('crop_ta_in_segment_cut_by_earlier_crop')
+                if il >= len(Ia.knots) - 1 and ca[1]:
+                    self.cnt('crop_tb_in_segment_cut_by_earlier_crop')
+                self.cut[d] = (tac > 0 or (i0 == 0 and ca[0]), tbc < tm or (il >= len(Ia.knots) - 1 and ca[1]))
+            else:
+                self.cut[d] = (False, False)
+        elif s.op in ('concat_local', 'concat_global'):
+            a, b = srcs
+            ca, cb = self.cut.get(a, (False, False)), self.cut.get(b, (False, False))
+            self.cut[d] = (ca[0] if self.info[a].knots else cb[0], cb[1] if self.info[b].knots else ca[1])
+        else:
+            self.cut[d] = self.cut.get(srcs[0], (False, False))
+        depth = len(h) - 1
+        self.cnt('history_depth_%d' % min(depth, 8))
+        if depth >= 3:
+            self.shapes[h[-7:]] = self.shapes.get(h[-7:], 0) + 1
+        if 'X' in h[:-1] and s.op == 'crop':
+            self.cnt('crop_of_crop_history')
 
     def law_empty(self, W, s, d, rm, ex):
         st = self.pr.get(('start', d))
@@ -900,11 +944,46 @@ class Audit:
         return key
 
     def law_make_local(self, W, s, d, rm, ex):
+        """make_local() only resets m_g0: start() = 1, same knots; on the FIRST segment y(t) = x(0)^-1 x(t)
+        with the velocity/acceleration of x, from the first knot on y(t) = x(t) (stored end points are kept),
+        end() unchanged.  The result equals x iff x.start() was the identity."""
         a = s.regs[1]
-        st = self.pr.get(('start', a))
-        self.taint[d] = True
-        if st is not None and not self.is_ident(st) and len(self.info[a].knots) >= 2:
-            self.cnt('make_local_moves_only_g0')
+        Ia = self.info[a]
+        st_a, en_a = self.pr.get(('start', a)), self.pr.get(('end', a))
+        st, en = self.pr.get(('start', d)), self.pr.get(('end', d))
+        ident = [float(x) for x in self.G.ident()]
+        if st is not None:
+            self.cnt('law_make_local')
+            W.add(0.0 if st == ident else INF, 0.0, 'make_local: start() != Identity')
+        if en is not None and en_a is not None:
+            self.cnt('law_make_local')
+            exp = en_a if Ia.knots else ident
+            W.add(0.0 if en == exp else INF, 0.0, 'make_local: end() changed')
+        self.joints[d] = set(self.joints.get(a, set()))
+        if st_a is None:
+            self.taint[d] = True
+            return {'kind': 'make_local'}
+        g0i = self.G.inv(self.fr(st_a))
+        k0 = Ia.knots[0] if Ia.knots else 0.0
+        single = len(Ia.knots) == 1
+        for tw, t, (g, vel, acc) in self.evals_of(d):
+            ea = self.ev.get((a, tw))
+            if ea is None or t < 0 or t > Ia.tmax() or not Ia.knots:
+                continue
+            self.cnt('law_make_local')
+            if t < k0 or single:
+                exp = [float(x) for x in self.G.mul(g0i, self.fr(ea[0]))]
+                self.cmp_g(W, 'make_local_first', g, exp, 0.0, f'make_local: y(t) != x(0)^-1 x(t) on the first segment at t={t!r}')
+                W.add(0.0 if (vel == ea[1] and acc == ea[2]) else INF, 0.0, f'make_local: velocity/acceleration changed at t={t!r}')
+            else:
+                W.add(0.0 if (g == ea[0] and vel == ea[1] and acc == ea[2]) else INF, 0.0,
+                      f'make_local: y(t) != x(t) after the first knot at t={t!r}')
+        self.outside(W, d, 'make_local')
+        self.structure(W, d, 'make_local')
+        if not self.is_ident(st_a):
+            self.taint[d] = True     # jump by x.start() at the first knot / at t_max: not a continuous curve
+            if len(Ia.knots) >= 1:
+                self.cnt('make_local_moves_only_g0')
         return {'kind': 'make_local'}
 
     def law_copy(self, W, s, d, rm, ex):
@@ -1039,9 +1118,11 @@ def check_scripts(scripts, want_audits=False):
             t1_bad.append(b)
     rm = driver_words([r for A in audits for r in A.rminus_requests()])
     ex = driver_words([r for A in audits for r in A.exp_requests(rm)])
-    findings, stats, worst, obs = [], {}, {}, {}
+    findings, stats, worst, obs, shapes = [], {}, {}, {}, {}
     for A in audits:
         findings += A.run(rm, ex)
+        for k, v in getattr(A, 'shapes', {}).items():
+            shapes[k] = shapes.get(k, 0) + v
         for k, v in A.stats.items():
             stats[k] = stats.get(k, 0) + v
         for k, v in A.worst.items():
@@ -1049,7 +1130,7 @@ def check_scripts(scripts, want_audits=False):
         for o in A.obs:
             obs[o] = obs.get(o, 0) + 1
     res = {'findings': findings, 't1_bad': t1_bad, 't1_stats': t1_stats, 'n_probes': n_probes, 'stats': stats,
-           'law_worst': worst, 'observations': obs}
+           'law_worst': worst, 'observations': obs, 'shapes': shapes}
     if want_audits:
         res['audits'] = audits
     return res
@@ -1205,7 +1286,7 @@ class C12:
     assumptions = ['IEEE rounding of u=(t-ta)/T at knots is outside the theorems; laws are audited with an explicit time-rounding allowance 64*eps*t_max*|velocity|',
                    'the segment curve c_V is abstract in the theorems; its concrete form is tied by T1 (CSpline.eval_vs, property C11)',
                    'the identity sum_j Btilde_j(u) = K*u of the cumulative Bernstein basis (C20) is a hypothesis of constant_velocity_law',
-                   'make_local() has no law in the property: it is tied by T1 only']
+                   'make_local() only resets m_g0 (theorem make_local_law); a non-identity start leaves a jump at the first knot, such results are not used as law operands']
 
     def __init__(self):
         self._bins = None
@@ -1284,7 +1365,10 @@ class C12:
                 'scripts': len(scripts), 'script_length_min_med_max': [min(lens), sorted(lens)[len(lens) // 2], max(lens)] if lens else [],
                 'op_histogram': ops, 'scripts_per_group_K': segs, 't1_worst_ulp': res['t1_stats'], 't1_breaks': len(res['t1_bad']),
                 'audit_samples': res['stats'].get('law_checks', 0), 'law_and_strata_counts': res['stats'], 'law_worst_rel_err': res['law_worst'],
-                'observations': res['observations'], 'witness_replays': wit, 'traces_validated_against_impl': len(scripts)}
+                'observations': res['observations'], 'witness_replays': wit,
+                'history_depth_histogram': {k[len('history_depth_'):]: v for k, v in sorted(res['stats'].items()) if k.startswith('history_depth_')},
+                'history_shapes_depth_ge_3_top': dict(sorted(res['shapes'].items(), key=lambda kv: -kv[1])[:25]),
+                'history_shape_legend': 'C constructor, L concat_local/+=, G concat_global, X crop, M make_local; last 7 operations of the longest operand chain', 'traces_validated_against_impl': len(scripts)}
 
     def explore(self, ctx):
         n = 40 if ctx['tier'] == 'quick' else 700
